@@ -217,10 +217,10 @@ fn static_checks<K: Kern<D>, const D: usize>(w: &World<K, D>, s: &Snap, hull: &H
 }
 
 /// every query must report staleness
-fn stale_checks<K: Kern<D>, const D: usize>(w: &World<K, D>, hull: &Hull<K, D>, q: &[f64], ctx: &str, opname: &str, restore_pending: bool, log: &mut CaseLog) {
+fn stale_checks<K: Kern<D>, const D: usize>(w: &World<K, D>, hull: &Hull<K, D>, q: &[f64], ctx: &str, opname: &str, restore_pending: bool, restored_since_hull: bool, log: &mut CaseLog) {
     let tri = w.dt.as_triangulation();
     let lp = mk_point::<D>(q);
-    let mk = |site: &str, msg: String| Violation::new(ID, "stale_hull_served", site, format!("{ctx}: {msg}")).fact("dim", D as u64).fact("after_op", opname).fact("restore_pending", restore_pending);
+    let mk = |site: &str, msg: String| Violation::new(ID, "stale_hull_served", site, format!("{ctx}: {msg}")).fact("dim", D as u64).fact("after_op", opname).fact("restore_pending", restore_pending).fact("restored_since_hull", restored_since_hull);
     log.evals += 1;
     if hull.is_valid_for_triangulation(tri) {
         log.violate(mk("is_valid_for_triangulation", "the triangulation changed after the hull was created but is_valid_for_triangulation() is still true".into()));
@@ -320,6 +320,7 @@ fn run<K: Kern<D>, const D: usize>(case: &Case, log: &mut CaseLog) {
     // staleness part
     // Some(g): the harness swapped in an older clone and the shared generation counter has not moved since
     let mut gen_at_restore: Option<u64> = None;
+    let mut restored_since_hull = false;
     for (step, op) in case.post.iter().enumerate() {
         let (res, out) = w.apply(&before, op);
         if matches!(out, Outcome::SetPanicked { .. }) {
@@ -334,16 +335,26 @@ fn run<K: Kern<D>, const D: usize>(case: &Case, log: &mut CaseLog) {
         }
         let restore_pending = gen_at_restore == Some(w.dt.tds().generation());
         let fp = w.fingerprint(&after);
-        let changed = fp.vertices != fp0.vertices || fp.cells != fp0.cells || fp.neighbors != fp0.neighbors;
+        // the hull refers to cells and vertices by key: the same complex under other keys (e.g. a
+        // restored clone taken before a flip and its inverse) is a different triangulation for it
+        let same_keys = after.cells.len() == s0.cells.len()
+            && after.cells.iter().zip(&s0.cells).all(|(a, b)| a.key == b.key && a.verts == b.verts)
+            && after.verts.len() == s0.verts.len()
+            && after.verts.iter().zip(&s0.verts).all(|(a, b)| a.key == b.key);
+        let changed = fp.vertices != fp0.vertices || fp.cells != fp0.cells || fp.neighbors != fp0.neighbors || !same_keys;
+        // did the harness ever continue on a clone from another generation-counter lineage?
+        if matches!(out, Outcome::Restored) {
+            restored_since_hull = true;
+        }
         log.class(format!("post:{}:{}", out.label(), if changed { "changed" } else { "unchanged" }));
         if changed {
             nontrivial = true;
             let n_before = log.violations.len();
-            stale_checks(&w, &hull, &queries[0], &format!("after post step {step} ({}) -> {}", res.desc, out.label()), out.label(), restore_pending, log);
+            stale_checks(&w, &hull, &queries[0], &format!("after post step {step} ({}) -> {}", res.desc, out.label()), out.label(), restore_pending, restored_since_hull, log);
             // a hull still served after the harness swapped in an older clone (and before the shared
             // counter moves again) is its own known class; the history continues so that later
             // mutations are still judged
-            if log.violations.len() > n_before && !restore_pending {
+            if log.violations.len() > n_before && !restore_pending && !restored_since_hull {
                 return;
             }
         } else if certified && hull.is_valid_for_triangulation(w.dt.as_triangulation()) {
@@ -382,6 +393,28 @@ pub fn strategy(dim: usize, max_ops: usize) -> BoxedStrategy<Case> {
         .boxed()
 }
 
+/// "snapshot, edit, take the hull, go back to the snapshot, edit differently": the two edits are of
+/// the same kind, so they tend to advance the generation by the same amount; a hull that can only
+/// tell triangulations apart by that number must still not answer for the second one.
+pub fn collision_strategy(dim: usize) -> BoxedStrategy<Case> {
+    let nmax = match dim {
+        2 => 12,
+        3 => 10,
+        _ => 8,
+    };
+    let ins = || op_strategy(dim, OpMix { insert: 1, remove: 0, flips: 0, repair: 0, setters: 0, clone: 0, adversarial_uuid: false });
+    let edit = || op_strategy(dim, OpMix { insert: 4, remove: 2, flips: 2, repair: 0, setters: 0, clone: 0, adversarial_uuid: false });
+    (any::<bool>(), any::<u64>(), start_strategy(dim, nmax, 1), proptest::collection::vec(ins(), 0..=2), edit(), edit(), proptest::collection::vec(edit(), 0..=3), proptest::collection::vec(proptest::collection::vec(-60i16..=60, dim), 0..4))
+        .prop_map(move |(robust, salt, start, mut pre, e1, e2, tail, queries)| {
+            pre.push(Op::Snapshot);
+            pre.push(e1);
+            let mut post = vec![Op::Restore, e2];
+            post.extend(tail);
+            Case { dim, robust, salt, start, pre, post, queries }
+        })
+        .boxed()
+}
+
 pub fn run_shard(ctx: &mut Ctx) {
     let thorough = ctx.tier == Tier::Thorough;
     let max_ops = if thorough { 24 } else { 8 };
@@ -398,6 +431,8 @@ pub fn run_shard(ctx: &mut Ctx) {
         };
         let n = ctx.share(total);
         ctx.run_cases(&format!("hull_history_d{dim}"), n, strategy(dim, max_ops), &|c, l| exec(c, l));
+        let nc = ctx.share(total / 3);
+        ctx.run_cases(&format!("snapshot_collision_d{dim}"), nc, collision_strategy(dim), &|c, l| exec(c, l));
     }
 }
 
